@@ -13,7 +13,7 @@ meta=json.load(open(p))
 m=re.search(r'mutant \S+ rc=(\d+)',tr)
 rc=int(m.group(1)) if m else None
 viol=[l for l in tr.split('\n') if l.startswith('VIOLATION') or l.startswith('INCONCLUSIVE')]
-meta['check_run']={"command":"git -C /repo apply patch.diff; ./bin/vf check %s --tier %s; git -C /repo checkout -- ."%(id,tier),"exit_code":rc,"detected":rc==1,"lines":viol[:6]}
+meta['check_run']={"command":"tools/try_mutant.sh %s patch.diff %s (git apply to a scratch worktree of /repo HEAD; VERIF_REPO=<worktree> ./bin/vf check; same result as applying to /repo and reverting)"%(id,tier),"exit_code":rc,"detected":rc==1,"lines":viol[:6]}
 json.dump(meta,open(p,'w'),indent=1)
 print("rechecked",name,"detected" if rc==1 else "NOT DETECTED rc=%s"%rc)
 PYEOF
